@@ -19,7 +19,8 @@ RULE = ("kinds: render (ranking over non-negative ints or delimiter-free non-int
         "multi-member bucket and noise, or a random text that parses; distinct by JSON")
 TRUSTED = common.TRUSTED_BASE + ["hand translation of utils.py:10-105, ranking.py:43-68 and of the str primitives "
                                  "(find / rfind / slicing / strip / split) used there", "the file system"]
-ASSUMPTIONS = ["ASCII texts (str.strip / isdigit / int() on the ASCII subset)"]
+ASSUMPTIONS = ["texts over ASCII plus a few non-ASCII letters and non-decimal digits (² ³ ①); decimal digits of other scripts, "
+               "which int() accepts, and non-ASCII white space are outside the generators (the model's isDigit / strip are ASCII)"]
 ALPHA = list("[]{},: \t\n") + list("0123456789") + list("abcxyz_-+%") + ["[", "]", "{", "}", ","] * 2
 
 
@@ -38,7 +39,9 @@ def _readable_as_int(s):
 def safe_name(rng):
     while True:
         k = rng.randint(1, 4)
-        s = "".join(rng.choice("abcxyz019 _-.") for _ in range(k)).strip()
+        # one name in four may hold non-ASCII characters, among them "digits" that str.isdigit() accepts but int() refuses
+        alphabet = "abcxyz019 _-." if rng.random() < 0.75 else "ab01²³①é "
+        s = "".join(rng.choice(alphabet) for _ in range(k)).strip()
         if s and not _readable_as_int(s):
             return s
 
